@@ -115,6 +115,8 @@ def eval_expr(expr: ast.AST, env: Dict[str, object]):
     try:
         return _eval_expr(expr, env)
     except (TypeError, ValueError, ZeroDivisionError, OverflowError) as exc:
+        if env.get("__raw__"):
+            raise  # inside a modelled `try:` the exception is part of the function's behaviour
         raise Undecided(f"{norm(expr)} is not defined on the sample point ({exc})")
 
 
@@ -149,6 +151,10 @@ def _eval_expr(expr: ast.AST, env: Dict[str, object]):
         return frozenset(out) if isinstance(expr, ast.SetComp) else tuple(out)
     if isinstance(expr, (ast.Tuple, ast.List)):
         return tuple(eval_expr(e, env) for e in expr.elts)
+    if isinstance(expr, ast.Set):
+        return frozenset(eval_expr(e, env) for e in expr.elts)
+    if isinstance(expr, ast.Dict) and all(k is not None for k in expr.keys):
+        return {eval_expr(k, env): eval_expr(v, env) for k, v in zip(expr.keys, expr.values)}
     if isinstance(expr, ast.UnaryOp):
         v = eval_expr(expr.operand, env)
         if isinstance(expr.op, ast.Not):
@@ -202,6 +208,12 @@ def _eval_expr(expr: ast.AST, env: Dict[str, object]):
             else:
                 raise Undecided(f"format spec in {norm(expr)}")
         return "".join(out)
+    if isinstance(expr, ast.Call) and isinstance(expr.func, ast.Attribute) and expr.func.attr == "get" and not expr.keywords and len(expr.args) in (1, 2):
+        recv = eval_expr(expr.func.value, env)
+        if isinstance(recv, dict):
+            k = eval_expr(expr.args[0], env)
+            return recv.get(k, eval_expr(expr.args[1], env) if len(expr.args) == 2 else None)
+        raise Undecided(f"cannot evaluate {norm(expr)}")
     if isinstance(expr, ast.Call) and isinstance(expr.func, ast.Name):
         fn = expr.func.id
         if fn == "abs" and len(expr.args) == 1:
@@ -241,10 +253,43 @@ class _Return(Exception):
         self.value = value
 
 
+class _Loop(Exception):
+    def __init__(self, kind):
+        self.kind = kind
+
+
+_EXC = {"TypeError": (TypeError,), "ValueError": (ValueError,), "KeyError": (KeyError,), "ZeroDivisionError": (ZeroDivisionError,),
+        "OverflowError": (OverflowError,), "ArithmeticError": (ZeroDivisionError, OverflowError),
+        "Exception": (TypeError, ValueError, KeyError, ZeroDivisionError, OverflowError)}
+
+
 def eval_function(fn: ast.AST, env: Dict[str, object]):
-    """Interpret a small pure function body (if / return / simple assignment /
-    pass / docstring) on concrete sample values.  Anything else -> Undecided."""
+    """Interpret a small pure decision function (if / return / simple assignment / pass / docstring / `for` over a sample
+    tuple / try-except around conversions) on sample values of a finite domain.  Anything else -> Undecided."""
     env = dict(env)
+
+    def bind(target, value):
+        if isinstance(target, ast.Name):
+            env[target.id] = value
+        elif isinstance(target, (ast.Tuple, ast.List)) and all(isinstance(x, ast.Name) for x in target.elts):
+            vals = tuple(value)
+            if len(vals) != len(target.elts):
+                raise Undecided(f"unpacking {norm(target)}")
+            for x, v in zip(target.elts, vals):
+                env[x.id] = v
+        else:
+            raise Undecided(f"target not modelled: {norm(target)}")
+
+    def handler_types(h):
+        if h.type is None:
+            return _EXC["Exception"]
+        names = [e for e in (h.type.elts if isinstance(h.type, ast.Tuple) else [h.type])]
+        out = ()
+        for e in names:
+            if not (isinstance(e, ast.Name) and e.id in _EXC):
+                raise Undecided(f"exception type not modelled: {norm(h.type)}")
+            out += _EXC[e.id]
+        return out
 
     def block(body):
         for st in body:
@@ -257,11 +302,60 @@ def eval_function(fn: ast.AST, env: Dict[str, object]):
             if isinstance(st, ast.If):
                 block(st.body if eval_expr(st.test, env) else st.orelse)
                 continue
-            if isinstance(st, ast.Assign) and len(st.targets) == 1 and isinstance(st.targets[0], ast.Name):
-                env[st.targets[0].id] = eval_expr(st.value, env)
+            if isinstance(st, ast.Assign) and len(st.targets) == 1 and isinstance(st.targets[0], (ast.Name, ast.Tuple)):
+                v = eval_expr(st.value, env)
+                bind(st.targets[0], list(v) if isinstance(st.value, (ast.List, ast.ListComp)) else v)  # a list the function may append to
                 continue
             if isinstance(st, ast.AnnAssign) and isinstance(st.target, ast.Name) and st.value is not None:
-                env[st.target.id] = eval_expr(st.value, env)
+                v = eval_expr(st.value, env)
+                env[st.target.id] = list(v) if isinstance(st.value, (ast.List, ast.ListComp)) else v
+                continue
+            if isinstance(st, ast.Expr) and isinstance(st.value, ast.Call) and isinstance(st.value.func, ast.Attribute) and st.value.func.attr in ("append", "extend") \
+                    and isinstance(st.value.func.value, ast.Name) and isinstance(env.get(st.value.func.value.id), list) and len(st.value.args) == 1 and not st.value.keywords:
+                v = eval_expr(st.value.args[0], env)
+                if st.value.func.attr == "append":
+                    env[st.value.func.value.id].append(v)
+                else:
+                    env[st.value.func.value.id].extend(v)
+                continue
+            if isinstance(st, ast.Continue):
+                raise _Loop("continue")
+            if isinstance(st, ast.Break):
+                raise _Loop("break")
+            if isinstance(st, ast.For) and not st.orelse:
+                items = eval_expr(st.iter, env)
+                if not isinstance(items, (tuple, list, frozenset, dict, range)):
+                    raise Undecided(f"iteration over {norm(st.iter)}")
+                for item in items:
+                    bind(st.target, item)
+                    try:
+                        block(st.body)
+                    except _Loop as lc:
+                        if lc.kind == "break":
+                            break
+                continue
+            if isinstance(st, ast.Try) and not st.finalbody:
+                hs = [(handler_types(h), h) for h in st.handlers]
+                raw = env.get("__raw__")
+                env["__raw__"] = True
+                try:
+                    try:
+                        block(st.body)
+                    finally:
+                        env["__raw__"] = raw
+                except (TypeError, ValueError, KeyError, ZeroDivisionError, OverflowError) as exc:
+                    for types, h in hs:
+                        if isinstance(exc, types):
+                            if h.name:
+                                raise Undecided("exception object used")
+                            block(h.body)
+                            break
+                    else:
+                        if raw:
+                            raise
+                        raise Undecided(f"uncaught {type(exc).__name__} on the sample point")
+                else:
+                    block(st.orelse)
                 continue
             raise Undecided(f"statement not modelled: {norm(st)[:80]}")
 
@@ -269,6 +363,8 @@ def eval_function(fn: ast.AST, env: Dict[str, object]):
         block(fn.body)
     except _Return as r:
         return r.value
+    except _Loop:
+        raise Undecided("loop control outside a loop")
     return None
 
 
